@@ -120,6 +120,9 @@ skip_array(const uint8_t * buf, const uint8_t * end)
 		/* Otherwise we should have a comma. */
 		if (*buf++ != ',')
 			return (end);
+
+		/* Skip optional whitespace. */
+		buf = skip_ws(buf, end);
 	} while (1);
 
 	/* NOTREACHED */
@@ -167,7 +170,8 @@ skip_object(const uint8_t * buf, const uint8_t * end)
 		if (*buf++ != ',')
 			return (end);
 
-		/* A name must follow the comma; we can't have hit the end. */
+		/* Skip optional whitespace; a name must follow. */
+		buf = skip_ws(buf, end);
 		if (buf == end)
 			return (end);
 	} while (1);
